@@ -93,7 +93,7 @@ class Scanner:
         k = t[0]
         if k in ('int', 'bool', 'str', 'unit', 'arg', 'named', 'fn', UNKNOWN):
             return t
-        if k == 'call' and t[1] in (S.IT_NEXT, S.IT_NEXT_BACK, S.IT_FIND) and t[4] is not None:
+        if k == 'call' and t[1] in (S.IT_NEXT, S.IT_NEXT_BACK, S.IT_FIND, S.IT_RFIND) and t[4] is not None:
             site = t[4]
             if site in st['binds']:
                 return st['binds'][site]
@@ -178,15 +178,19 @@ class Scanner:
             nc = self.V.next_call(t)
             if nc is None:
                 raise Unrecognised('next() on something that is not an iterator over a derived table: %s' % show(t))
+            if nc[1] is None:
+                raise Unrecognised('cannot tell which iterator %s advances (it is reached through a projection of a reference)' % show(t)[:120])
             return (t[4], nc[0], nc[1], nc[2])
-        if t[0] == 'call' and t[1] == S.IT_FIND and t[4] is not None and t[4] not in st['binds']:
+        if t[0] == 'call' and t[1] in (S.IT_FIND, S.IT_RFIND) and t[4] is not None and t[4] not in st['binds']:
             a = self.V.strip(t[2][0])
             loc = a[2] if a[0] == 'ref' else None
             src = self.V.iter_source(a)
             clo = self.V.strip(t[2][1])
             if src is None or clo[0] != 'agg' or not clo[1].startswith('closure|'):
                 raise Unrecognised('find() on something that is not an iterator over a derived table: %s' % show(t))
-            return (t[4], ('find', clo), loc, src)
+            if loc is None:
+                raise Unrecognised('cannot tell which iterator %s advances (it is reached through a projection of a reference)' % show(t)[:120])
+            return (t[4], ('find', clo, 'fwd' if t[1] == S.IT_FIND else 'bwd'), loc, src)
         if t[0] == 'promoted':
             return None
         for x in t:
@@ -355,6 +359,7 @@ class Scanner:
         es = self.entries(src, direction)
         k = len(es)
         out = []
+        self.one_direction(st, local, direction)
         consumed = st['idx'].get(local)
         if consumed is None and self.is_scan_header(site):
             # first-match scan: entry i is drawn last for the inputs that entries 0..i-1 did not accept
@@ -391,8 +396,9 @@ class Scanner:
 
     def specialise_find(self, st, draw, want):
         """find(it, pred): the first entry (in iteration order, from the iterator's current position) whose predicate holds"""
-        site, (_, clo), local, src = draw
-        es = self.entries(src, 'fwd')
+        site, (_, clo, fdir), local, src = draw
+        es = self.entries(src, fdir)        # rfind: the entries in reverse order, position counted from the back
+        self.one_direction(st, local, fdir)
         start = st['idx'].get(local) or 0
         out = []
         taken = []
@@ -412,8 +418,17 @@ class Scanner:
             out.append(s)
         return out
 
+    def one_direction(self, st, local, direction):
+        """the position of an iterator is kept as the number of entries consumed from one end; an iterator that is drawn from both
+        ends (find then next_back, rfind then next) is outside what that models"""
+        if local is None:
+            return
+        d = st.setdefault('dir', {})
+        if d.setdefault(local, direction) != direction:
+            raise Unrecognised('the run-table iterator is drawn from both ends (%s after %s)' % (direction, d[local]))
+
     def fork(self, st):
-        return {'binds': dict(st['binds']), 'idx': dict(st['idx']), 'region': list(st['region']), 'first': st['first']}
+        return {'binds': dict(st['binds']), 'idx': dict(st['idx']), 'region': list(st['region']), 'first': st['first'], 'dir': dict(st.get('dir', {}))}
 
     def step(self, st, blk, g):
         """apply one edge guard to a state -> list of states"""
@@ -444,7 +459,7 @@ class Scanner:
             return outs
         if g[0] != 'sw':
             raise Unrecognised('edge condition %r' % (g[0],))
-        is_draw = g[1][0] == 'discr' and g[1][1][0] == 'call' and g[1][1][1] in (S.IT_NEXT, S.IT_NEXT_BACK, S.IT_FIND) and g[1][1][4] is not None
+        is_draw = g[1][0] == 'discr' and g[1][1][0] == 'call' and g[1][1][1] in (S.IT_NEXT, S.IT_NEXT_BACK, S.IT_FIND, S.IT_RFIND) and g[1][1][4] is not None
         if is_draw:
             inner = g[1][1]
             arm = S.option_arm(g)
